@@ -303,12 +303,29 @@ func genArpaName(rng *rand.Rand) string {
 	s := strings.Join(append(ls, root), ".")
 	if rng.IntN(12) == 0 {
 		s = pick(rng, "foo.", "a.b.", "1.", "f.", ".", "xn--.", "srv100.", "net172.", "x1.", "host255.") + s
+	} else if rng.IntN(30) == 0 {
+		// foreign labels that are long in UTF-8 and short in ACE, in front of a root in either case:
+		// the raw name is longer than any bound that holds for the validated (converted) form
+		s = genCompactIDN(rng) + "." + s
+		if rng.IntN(2) == 0 {
+			s = strings.ToUpper(s)
+		}
 	}
 	if rng.IntN(12) == 0 && len(s) > 0 {
 		// flip bit 5 of one byte of the name (case-fold confusions: '.'/0x0e, '-'/CR, '6'/0x16)
 		b := []byte(s)
 		b[rng.IntN(len(b))] ^= 0x20
 		s = string(b)
+	}
+	if rng.IntN(12) == 0 {
+		// one label in its ACE spelling: "xn--" + label + "-" is the punycode of the all-ASCII
+		// label itself, so an IDNA conversion turns the name of another zone into this one
+		ps := strings.Split(s, ".")
+		k := rng.IntN(len(ps))
+		if ps[k] != "" {
+			ps[k] = pick(rng, "xn--", "xn--", "XN--", "xN--") + ps[k] + pick(rng, "-", "-", "", "--")
+			s = strings.Join(ps, ".")
+		}
 	}
 	if rng.IntN(16) == 0 {
 		// one, two, three trailing dots (on top of a root that may have one already)
